@@ -184,6 +184,10 @@ def features(beh):
     return feats
 
 
+# results of a step that mean "the driver's deadline passed"
+TIMING_RES = {'not-parked', 'no-return', 'not-appended', 'no-response', 'no-tick'}
+
+
 def select(sims, n, rng):
     """greedy selection of at most n behaviours covering as many distinct features as possible"""
     pool = [(b, features(b)) for b in sims if len(b) > 1]
@@ -248,9 +252,24 @@ def judge(rep, behaviours, trace, prop, names, trace_cfg='Trace_Replication.cfg'
         bad.setdefault(tid, []).append((line, action, name, taint))
     if drifting:
         core.write_json(os.path.join(core.BUILD, 'drift-%s.json' % prop), {'replay': {'behaviours': drifting[:20]}})
+    # a step the DRIVER gave up on after a deadline (goroutine not back at its gate, record not appended, no
+    # response, no health tick in time) is machine load or a hang - the two cannot be told apart here - and the
+    # rest of that behaviour is not the history the stimulus describes: property failures at or after such a
+    # step are not classified; the run ends inconclusive (exit 2) instead, never as a violation
+    timed = {}
+    try:
+        for i, e in enumerate(core.read_ndjson(trace)):
+            if e.get('res') in TIMING_RES:
+                timed.setdefault(e.get('t'), i + 1)
+    except Exception:
+        timed = {}
     for tid, fl in bad.items():
         fl.sort()
         line, action, name, taint = fl[0]
+        if tid in timed and timed[tid] <= line:
+            rep.cov['failures_after_a_timed_out_step'] = rep.cov.get('failures_after_a_timed_out_step', 0) + 1
+            core.log('behaviour %s: %s fails at line %d after the driver timed out at line %d - not classified' % (tid, name, line, timed[tid]))
+            continue
         # a known finding is only credited when the real code followed the specified (code-faithful)
         # actions exactly up to the failing step; otherwise the history is not the recorded one
         conform = 'yes' if not [x for x in drift_lines.get(tid, []) if x <= line] else 'no'
@@ -327,6 +346,8 @@ def run(rep, tier, seed, replay, prop, names, relevant, rule, rf1=False, mc_quic
             with core.scratch(prop.lower()) as d:
                 trace = execute(bs, d)
                 judge(rep, bs, trace, prop, names, tcfg)
+        if rep.cov.get('failures_after_a_timed_out_step') and not rep.violations:
+            raise core.Inconclusive('a property failed after a step on which the driver had timed out (machine load?)')
         rep.cov['rule'] = 'replay of a saved stimulus'
         rep.cov['samples'] = behaviours[:1]
         rep.cov['evaluations'] = len(behaviours)
@@ -408,6 +429,9 @@ def run(rep, tier, seed, replay, prop, names, relevant, rule, rf1=False, mc_quic
     b3, l3 = sizes_stage(rep, tier, seed, rng, prop, names)
     behaviours += b3
     lines += l3
+    if rep.cov.get('failures_after_a_timed_out_step') and not rep.violations:
+        raise core.Inconclusive('%d behaviour(s) failed a property after a step on which the driver had timed out (machine load?)'
+                                % rep.cov['failures_after_a_timed_out_step'])
     rep.cov['traces_validated_against_impl'] = len(behaviours)
     rep.cov['trace_lines_validated'] = lines
     rep.cov['evaluations'] = len(behaviours)
